@@ -5,6 +5,7 @@ import Tmv.Lemmas.SyncClosure
 import Tmv.Lemmas.CommitInv
 import Tmv.Lemmas.SyncLog
 import Tmv.Lemmas.SyncOwn
+import Tmv.Lemmas.SyncCommit
 /-! # C03 — termination: correct nodes decide once the network behaves  (**partial**)
 
 Models: `Tmv.Cons` (one node, `consensus/state.go` statement by statement; tied to the real
@@ -46,7 +47,11 @@ What is proved here, each for EVERY configuration / state / schedule it quantifi
   vote is its only vote for that round and type at every correct node) and hence
   `closure_spreads_correct_majority` / `correct_majority_known_to_all` (polkas and commits of correct
   validators spread to every live idle node tracking the round, no side condition; uses
-  `own_votes_recorded`), `closure_converged_of_count`; the
+  `own_votes_recorded`), `closure_converged_of_count`; round monotonicity and quiet steps
+  (`step_never_goes_back`, relation `Cons.Quiet`) and with them the fixpoint argument for proposals
+  and block parts (`closure_delivers_proposal`, `closure_delivers_block`), hence **`commit_spreads`**:
+  after a converged closure a correct node that is not an orphan and waits for block `b` has decided
+  `b` once the correct precommit quorum and the block are in the log; the
   discipline of the synchronous suffix (`suffix_timeout_needs_closed_net`,
   `suffix_timeouts_in_time_order`);
 * the full statement `Termination` is FALSE of the model and of the code, for two reasons, both
@@ -66,12 +71,17 @@ pieces named earlier: (a) the lift of one-vote-per-round to the net's log is now
 correct validators); (b) convergence of `closure` within its fuel is reduced to the executable test
 `closureCount` (`closure_converged_of_count`), which the stream evaluates on both sides for every
 closure of every run (never more than a handful of passes) — a proof for all reachable nets needs a
-protocol-level measure and is open; (c) composing `good_round_decides_node` over all correct nodes of
-a closed net needs, beyond (a): that every node has entered the round (round synchronisation), that
-proposal and block reach a node that knows the header or are re-delivered (`closure` does that; the
-fixpoint argument of `closure_records_votes` has to be repeated for proposals and block parts)
-— that the correct nodes' own votes are recorded at themselves is proved (`own_votes_recorded`); (d) round
-synchronisation in virtual time (`bad_round_ends_at_precommit_wait_timeout` is the single-node step).
+protocol-level measure and is open; (c) the fixpoint argument is now done for votes, proposals and block parts, own votes are recorded
+(`own_votes_recorded`), and the commit half of the good round holds at network level
+(`commit_spreads`); what is still missing for `good_round_decides` is the PREVOTE/PRECOMMIT half at
+network level: a static characterisation of closed idle states ("a live node in round r that holds the
+complete proposal and the polka has precommitted, or one of its timers is pending"), which needs
+invariants linking step, ticker and signed votes (step ≥ prevote ⇒ a prevote of the round is signed;
+step = propose / prevoteWait ⇒ that timeout is pending; the value of the prevote is the complete valid
+proposal unless the node timed out first), the provenance of `proposal` (from the log or own, unique
+per correct proposer), and the round synchronisation of (d); (d) round synchronisation in virtual time
+(`bad_round_ends_at_precommit_wait_timeout` is the single-node step; `step_never_goes_back` gives
+round monotonicity).
 The Go stream's oracle checks the bound of `Termination` on every generated run instead. -/
 namespace Tmv.Props.C03
 open Tmv.Cons Tmv.Sync
@@ -511,6 +521,67 @@ theorem correct_majority_known_to_all (c : SCfg) (correct : List Nat) (hn : corr
     (by rw [← hreach]; exact hlog nd.idx hself) rfl
   exact Sync.own_votes_recorded c correct hn _ nd hm (hQc nd.idx hself).2 hlive hq t r b hsigned
 
+/-! ### round monotonicity, quiet steps, and what closure delivers besides votes -/
+
+/-- **one input of the receive routine never takes a node back** (`Cons.Quiet`): the round never
+decreases; within one round the step only moves forward, the proposer-priority count is fixed and an
+accepted proposal stays; with round, step and outputs unchanged a known part-set header stays (and a
+complete part set stays complete) unless it is replaced by the header of the round's polka; recorded
+majorities, halting and decisions are permanent. -/
+theorem step_never_goes_back (c : Cfg) (s : NodeState) (i : Input) (hn : NHI s) :
+    Quiet s (step c s i) ∧ NHI (step c s i) :=
+  step_Quiet c s i hn
+
+/-- **after a converged closure every live node has a proposal for its round** if the round's proposal
+— by the proposer the node expects, with an admissible POL round, not its own — is in the log -/
+theorem closure_delivers_proposal (c : SCfg) (correct : List Nat) (ops : List Op)
+    (hconv : ((Net.init correct).run c ops).closureConverged c)
+    (i k : Nat) (nd : Node) (p : Proposal)
+    (hi : (((Net.init correct).run c ops).closure c).nodes[i]? = some nd)
+    (hk : (((Net.init correct).run c ops).closure c).log[k]? = some (.proposal p))
+    (hlive : nd.s.halted = false ∧ nd.s.decided = none)
+    (hround : p.round = nd.s.round)
+    (hpol : ¬ (p.pol < -1 ∨ (p.pol ≥ 0 ∧ p.pol ≥ (p.round : Int))))
+    (hsigner : p.signer = (nodeCfg c.cfg nd.idx).proposer nd.s.valRound ∧ p.signer < c.cfg.n)
+    (hnot : p.signer ≠ nd.idx) :
+    nd.s.proposal.isSome = true :=
+  Sync.closure_delivers_proposal c _ hconv (run_NHI c correct ops) i k nd p hi hk hlive hround hpol hsigner hnot
+
+/-- **after a converged closure every live node that waits for the parts of a block that is in the log
+has them** (the fixpoint argument of `closure_records_votes`, for block parts: uses that a quiet pass
+cannot move a part-set header away and back) -/
+theorem closure_delivers_block (c : SCfg) (correct : List Nat) (ops : List Op)
+    (hconv : ((Net.init correct).run c ops).closureConverged c)
+    (i k : Nat) (nd : Node) (b : Nat)
+    (hi : (((Net.init correct).run c ops).closure c).nodes[i]? = some nd)
+    (hk : (((Net.init correct).run c ops).closure c).log[k]? = some (.block b))
+    (hlive : nd.s.halted = false ∧ nd.s.decided = none)
+    (hparts : nd.s.proposalParts = some b) :
+    nd.s.partsDone = true :=
+  Sync.closure_delivers_block c _ hconv (run_NHI c correct ops) i k nd b hi hk hlive hparts
+
+/-- **a commit spreads** (the "decision seen without its block" clause of the property, at network
+level, every schedule): after a converged closure, a correct node that is not halted, idle, tracks
+round `r`, is NOT an orphan (`hnorphan`), waits for block `b` and whose commit round carries `b`
+(`hcv`) has decided `b` as soon as the precommits for `b` of correct validators carrying the quorum and
+the block are in the log — whatever else the faulty validators sent and in whatever order everything
+arrived. -/
+theorem commit_spreads (c : SCfg) (correct : List Nat) (hn : correct.Nodup) (ops : List Op)
+    (hconv : ((Net.init correct).run c ops).closureConverged c)
+    (i : Nat) (nd : Node) (hi : (((Net.init correct).run c ops).closure c).nodes[i]? = some nd)
+    (r b : Nat) (Q : List Nat) (hQ : Q.Nodup) (hQc : ∀ u ∈ Q, u ∈ correct ∧ u < c.cfg.n)
+    (hlog : ∀ u ∈ Q, Msg.vote ⟨.precommit, r, some b, u, true, u, u⟩ ∈
+      (((Net.init correct).run c ops).closure c).log)
+    (hp : (nodeCfg c.cfg nd.idx).quorum ≤ (Q.map (nodeCfg c.cfg nd.idx).power).sum)
+    (hblock : Msg.block b ∈ (((Net.init correct).run c ops).closure c).log)
+    (hh : nd.s.halted = false) (hq : nd.s.queue = [])
+    (ht : (nd.s.votes.getVoteSet (r : Int) .precommit).isSome = true)
+    (hnorphan : 0 ≤ nd.s.commitRound → nd.s.step = .commit)
+    (hcv : ∀ b', maj23Of (nd.s.votes.getVoteSet nd.s.commitRound .precommit) = some (some b') → b' = b)
+    (hparts : nd.s.proposalParts = some b) :
+    nd.s.decided = some (b, nd.s.commitRound) :=
+  Sync.commit_spreads c correct hn ops hconv i nd hi r b Q hQ hQc hlog hp hblock hh hq ht hnorphan hcv hparts
+
 /-- the same for a synchronous suffix -/
 theorem decisions_are_final_in_suffix (c : SCfg) (net : Net) (moves : List Op) (i : Nat) (d : Nat × Int)
     (h : net.decidedAt i = some d) : (syncRun c net moves).decidedAt i = some d := by
@@ -945,6 +1016,13 @@ example : (run exNode1 .init exGoodRun).halted = false ∧
 /-- the closure at the synchrony point of the first witness run converges with the second pass -/
 example : closureCount exCfg closureFuel { (Net.init [0, 2, 3]).run exCfg exPrefix with synced := true } = some 2 := by
   decide +kernel
+
+/-- an instance of `commit_spreads` evaluated: in `exWaitingNet` validator 2 waits in the commit step
+for block 0 (not an orphan); the closure converges with its second pass and validator 2 — like
+validators 0 and 3, which were missing one precommit each — has decided block 0 in round 0 -/
+example : closureCount exCfg closureFuel exWaitingNet = some 2 ∧
+    ((exWaitingNet.closure exCfg).nodes.map fun nd => (nd.idx, nd.s.decided)) =
+      [(0, some (0, 0)), (2, some (0, 0)), (3, some (0, 0))] := by decide +kernel
 
 /-- the round-robin schedule of the witness configuration is fair with window 4 -/
 example : FairSchedule exCfg.cfg 4 := by
